@@ -31,10 +31,10 @@ template <class T> static void core ()
     std::string st = std::string ("frustum-core.") + tname<T> ();
     if (!R ().stage (st)) return;
     std::atomic<ll> c_dy (0), c_or (0), c_pe (0), c_asym (0), c_pts (0), c_behind (0), c_rays (0), c_depth (0), c_z (0), c_trunc (0), trans (0);
-    std::mutex mm; double w_corner = 0, w_screen = 0, w_depth_o = 0, w_depth_p = 0, w_ndc = 0;
+    std::mutex mm; double w_corner = 0, w_screen = 0, w_depth_o = 0, w_depth_p = 0, w_ndc = 0, w_dt = 0;
     bool ok = parallel_chunks (FS.size (), 8, [&] (uint64_t lo, uint64_t hi, unsigned) {
         ll k_dy = 0, k_or = 0, k_pe = 0, k_as = 0, k_pts = 0, k_beh = 0, k_rays = 0, k_dep = 0, k_z = 0, k_tr = 0, k_t = 0;
-        double lw_c = 0, lw_s = 0, lw_do = 0, lw_dp = 0, lw_n = 0;
+        double lw_c = 0, lw_s = 0, lw_do = 0, lw_dp = 0, lw_n = 0, lw_dt = 0;
         for (uint64_t fi = lo; fi < hi; ++fi)
         {
             const FSpec& F = FS[fi];
@@ -113,6 +113,17 @@ template <class T> static void core ()
                 LD d = fabsl ((LD) got - wd);
                 if (F.ortho) lw_do = std::max (lw_do, (double) (d / (8 * e * f))); else lw_dp = std::max (lw_dp, (double) (d / (8 * e * ratio * fabsl (wd))));
                 if (!(d <= tol)) R ().fail (std::string (site) + (F.dyadic ? ".exact" : (F.ortho ? ".orthographic" : ".perspective")), in, s (wd), fmt (got));
+                // Perspective, tight form of the same analysis (audit4 C16 item 5).  With u = eps/2: Zp carries <= 3u absolute error when the
+                // normalised z had to be rounded (ZToDepth), Zp(f-n) one more rounding <= u f, "- f" <= 2u f, "- n" <= u |Den|: the denominator
+                // errs by <= 6u f + u |Den| with |Den| = 2fn/|d|, i.e. relatively by 1.5 eps |d|/n + eps/2, the quotient adds eps/2:
+                // |error| <= (1.5 |d|/n + 1) eps |d|; the bound used is twice that.  (8 eps (f/n) |d| above is this bound at |d| = f, times 2.3,
+                // applied at every depth: at far/near = 2^20 it is a 100 % tolerance in float.)
+                else if (!F.ortho)
+                {
+                    LD tt = (3 * fabsl (wd) / n + 2) * e * fabsl (wd);
+                    lw_dt = std::max (lw_dt, (double) (d / tt));
+                    if (!(d <= tt)) R ().fail (std::string (site) + ".perspective-tight", in, s (wd), fmt (got));
+                }
             };
             static const double ZN[] = {0, 0.25, 0.5, 0.75, 1, 0.0009765625, 0.9990234375};
             for (double zn : ZN)
@@ -230,7 +241,7 @@ template <class T> static void core ()
         }
         c_dy += k_dy; c_or += k_or; c_pe += k_pe; c_asym += k_as; c_pts += k_pts; c_behind += k_beh; c_rays += k_rays; c_depth += k_dep; c_z += k_z; c_trunc += k_tr; trans += k_t;
         std::lock_guard<std::mutex> g (mm);
-        w_corner = std::max (w_corner, lw_c); w_screen = std::max (w_screen, lw_s); w_depth_o = std::max (w_depth_o, lw_do); w_depth_p = std::max (w_depth_p, lw_dp); w_ndc = std::max (w_ndc, lw_n);
+        w_corner = std::max (w_corner, lw_c); w_screen = std::max (w_screen, lw_s); w_depth_o = std::max (w_depth_o, lw_do); w_depth_p = std::max (w_depth_p, lw_dp); w_ndc = std::max (w_ndc, lw_n); w_dt = std::max (w_dt, lw_dt);
     });
     ll nf = c_dy + c_or + c_pe;
     R ().add ("states", nf + c_pts + c_rays + c_depth + c_z); R ().add ("evaluations", nf + c_pts + c_rays + c_depth + c_z); R ().add ("transitions", trans);
@@ -241,6 +252,7 @@ template <class T> static void core ()
     R ().note_max ("worst corner->cube error / (8 eps), " + tn, w_corner); R ().note_max ("worst projectPointToScreen error / tolerance, " + tn, w_screen);
     R ().note_max ("worst orthographic depth error / (8 eps far), " + tn, w_depth_o); R ().note_max ("worst perspective depth error / (8 eps far/near |d|), " + tn, w_depth_p);
     R ().note_max ("worst NDC-z-through-matrix error / (16 eps), " + tn, w_ndc);
+    R ().note_max ("worst perspective depth error / tight bound (3 |d|/n + 2) eps |d|, " + tn, w_dt);
     if (ok) R ().stage_done (std::to_string (nf) + " frusta (5400 of the product alphabet + 75 further dyadic orthographic) x every member relation");
     else R ().stage_partial ("deadline");
 }
@@ -294,5 +306,7 @@ int main (int argc, char** argv)
     vf::R ().assume ("long double has a 64-bit significand (x86-64); every frustum parameter of the alphabet is a dyadic rational with few bits");
     c16::run_core ();
     c16::run_frustumtest ();
+    c16::run_cameras2 ();
+    c16::run_history ();
     return vf::R ().finish ();
 }
